@@ -16,7 +16,7 @@ import (
 
 var (
 	stateHdrRe = regexp.MustCompile(`^-+state (\d+)-+$`)
-	gotoRe     = regexp.MustCompile(`^at (\S+) goto (-?\d+)\s*$`)
+	gotoRe     = regexp.MustCompile(`^at\s+(\S+)\s+goto\s+(-?\d+)\s*$`) // (column padding is layout, not content)
 	dotEdgeRe  = regexp.MustCompile(`^\s*state_(\d+)->state_(\d+)\[ label="((?:[^"\\]|\\.)*)" \];$`)
 	dotNodeRe  = regexp.MustCompile(`^\s*state_(\d+) \[ (.*) \];$`)
 	dotLabelRe = regexp.MustCompile(`label="((?:[^"\\]|\\.)*)"`)
@@ -163,6 +163,7 @@ func execC18(ctx *Ctx, in *Input) *Result {
 		listGoto := map[int][]string{}
 		var laLines []string
 		seenStates := 0
+		goodGoto, badGoto := 0, ""
 		for _, ln := range lines {
 			t := strings.TrimRight(ln, " ")
 			switch {
@@ -203,8 +204,12 @@ func execC18(ctx *Ctx, in *Input) *Result {
 				if inGoto {
 					m := gotoRe.FindStringSubmatch(t)
 					if m == nil {
-						return fail("listing-unreadable", "GOTO line not understood: %q", t)
+						if badGoto == "" {
+							badGoto = t
+						}
+						continue
 					}
+					goodGoto++
 					listGoto[cur] = append(listGoto[cur], m[1]+">"+m[2])
 				} else {
 					listItems[cur] = append(listItems[cur], squash(t))
@@ -218,6 +223,14 @@ func execC18(ctx *Ctx, in *Input) *Result {
 		if seenStates == 0 && len(a.States) > 0 {
 			res.Harness = "debug listing format not recognised (no state header found): " + firstLines(o.Stdout, 4)
 			return res
+		}
+		if badGoto != "" && goodGoto == 0 {
+			// not one transition line has the shape the harness reads: the listing format changed, no verdict
+			res.Harness = fmt.Sprintf("debug listing format not recognised (GOTO lines such as %q)", badGoto)
+			return res
+		}
+		if badGoto != "" {
+			return fail("listing-unreadable", "GOTO line not understood (others of the same listing are): %q", badGoto)
 		}
 		if seenStates != len(a.States) {
 			return fail("listing-state-count", "the listing shows %d states, the tables have %d", seenStates, len(a.States))
